@@ -103,6 +103,23 @@ func one(c *Ctx, src []byte, toModel bool, s *st) {
 				c.Fail("normal-mode-final-newline", cs, fmt.Sprintf("%q", t1))
 			}
 		}
+		// the same through the entry point a user reaches (`grol -format [-compact]`: repl.EvalAll, format only): what it writes is
+		// what the printer returned, and feeding that back writes the same bytes again
+		if e1, ok1 := EntryFormat(src, compact); !ok1 {
+			c.Fail("entry-point-rejects-clean-source:"+mode, cs, fmt.Sprintf("src=%q", src))
+		} else {
+			c.Count("entry-point-formatted")
+			if !bytes.Equal(e1, t1) {
+				c.Fail("entry-point-output-differs-from-printer:"+mode, cs, fmt.Sprintf("src=%q entry=%q printer=%q", src, e1, t1))
+			}
+			if t2 != nil && bytes.Equal(t1, t2) { // (non-fixpoints of the printer itself are classified below)
+				if e2, ok2 := EntryFormat(e1, compact); !ok2 || !bytes.Equal(e1, e2) {
+					c.Fail("idempotence-entry-point:"+mode, cs, fmt.Sprintf("src=%q f=%q ff=%q", src, e1, e2))
+				} else if e3, _ := EntryFormat(e2, compact); !bytes.Equal(e3, e2) {
+					c.Fail("idempotence-entry-point:third-pass:"+mode, cs, fmt.Sprintf("src=%q ff=%q fff=%q", src, e2, e3))
+				}
+			}
+		}
 		if t2 == nil || !bytes.Equal(t1, t2) {
 			s.notfix++
 			sig := "idempotence-unclassified:" + mode
